@@ -266,7 +266,27 @@ fn explore(case: &Case) -> Verdict {
     };
     for (_, ci) in scored.into_iter().take(cap) {
         let rec = &base.commits[ci];
-        for (idx, call) in rec.calls.iter().enumerate() {
+        // a commit with hundreds of I/O calls (a bulk load) is explored at a sample of its call
+        // indices: the first ten, the last thirty (free-list page, data sync, header write,
+        // final sync live there) and a seeded selection in between
+        let limit = if thorough { 400 } else { 70 };
+        let ncalls = rec.calls.len();
+        let chosen_idx: Vec<usize> = if ncalls <= limit {
+            (0..ncalls).collect()
+        } else {
+            let mut c: Vec<usize> = (0..10).chain(ncalls - 30..ncalls).collect();
+            while c.len() < limit {
+                let i = 10 + r.below((ncalls - 40) as u64) as usize;
+                if !c.contains(&i) {
+                    c.push(i);
+                }
+            }
+            c.sort();
+            *counters.entry("commits_explored_at_sampled_call_indices".into()).or_default() += 1;
+            c
+        };
+        for idx in chosen_idx {
+            let call = &rec.calls[idx];
             for (action, expect) in kinds_for(*call, &mut r, case.pagesize) {
                 let plan = vec![Fault { nth: idx as u64, action }];
                 let v1 = one(case, steps.clone(), rec.n, plan.clone(), expect);
